@@ -651,10 +651,11 @@ type c20BidCacheState struct {
 	held  int
 	mid   int
 	won   int
+	done  bool
 }
 
 func c20BidCacheBody(st *c20BidCacheState) {
-	st.held, st.mid, st.won = 0, 0, 0
+	st.held, st.mid, st.won, st.done = 0, 0, 0, false
 	c09Init()
 	e := &c09Env{cfgKind: "none", given: make([][]c09Given, 1)}
 	strat := c09Strats()[0]
@@ -688,6 +689,7 @@ func c20BidCacheBody(st *c20BidCacheState) {
 		}
 	}
 	st.held = len(svc.VerifBidCacheKeys())
+	st.done = true
 }
 
 // ---- units --------------------------------------------------------------------------------------
@@ -887,8 +889,12 @@ func c20Units(tier string) []hx.Unit {
 				Sample: fmt.Sprintf("block relay, one %s per slot for %d slots: results of %d slots cached half way, of %d at the end", mode, st.slots, st.mid, st.held)}
 			if r.Panic != "" {
 				v.Violation, v.Key = v.Sample+": panic: "+firstLine(r.Panic), "C20/bid-cache/panic/"+panicSite(r.Panic)
+			} else if !st.done {
+				v.Violation, v.Key = fmt.Sprintf("block relay with one %s per slot: a call never returned (%d calls had produced a bid before)", mode, st.won), "C20/bid-cache/never-returned/"+mode
 			} else if (mode == "auction-without-winner" && st.won != 0) || (mode != "auction-without-winner" && st.won < st.slots) {
-				v.Violation, v.Key = fmt.Sprintf("harness: %d of %d %ss produced a bid", st.won, st.slots, mode), "C20/bid-cache/harness"
+				// the relay's answers did not lead to the outcomes this scenario is about (a matter of C09, not of
+				// tidying up): nothing is concluded
+				v.Outcome, v.Nontrivial = "bid cache "+mode+": scenario not reached", false
 			} else if st.held > st.slots/2 {
 				// a fixed window: whatever its size, an hour (quick) of slots later most of them must be gone
 				v.Violation = fmt.Sprintf("block relay with one %s per slot: after %d slots the results of %d slots are still cached (%d half way): nothing is ever removed", mode, st.slots, st.held, st.mid)
